@@ -296,6 +296,20 @@ fn sample_value<C: Serialize>(case: &C) -> Value {
     }
 }
 
+/// Is this binary built against the alternative library configuration (no
+/// `std`, lexical-core `compact`; harness feature `lib-compact`)? Failure
+/// signatures carry the suffix `@alt` there, so that a finding known for one
+/// configuration does not hide anything in the other.
+pub const ALT_CONFIG: bool = cfg!(feature = "lib-compact");
+
+pub fn library_configuration() -> &'static str {
+    if ALT_CONFIG {
+        "scpi built without `std` (no_std + alloc) and with `compact` (lexical-core's compact algorithms), arrayvec, all unit features"
+    } else {
+        "scpi with alloc + arrayvec + std and all unit features (default of the harness)"
+    }
+}
+
 fn guarded(f: impl FnOnce() -> CheckResult) -> CheckResult {
     match no_panic(f) {
         Ok(r) => r,
@@ -383,7 +397,8 @@ impl Engine {
         }
         self.known
             .iter()
-            .find(|k| k.status == "known" && k.property == self.property && k.signature == sig)
+            // a finding listed without a configuration suffix holds in every library configuration
+            .find(|k| k.status == "known" && k.property == self.property && (k.signature == sig || (!k.signature.contains('@') && sig.strip_suffix("@alt") == Some(k.signature.as_str()))))
     }
 
     fn absorb(&self, obs: &Obs, sample: impl FnOnce() -> Value, local: &mut LocalStats) {
@@ -416,7 +431,11 @@ impl Engine {
         }
     }
 
-    fn record_failure(&self, campaign: &str, failure: Failure, case: Value) {
+    fn record_failure(&self, campaign: &str, mut failure: Failure, case: Value) {
+        if ALT_CONFIG && !failure.signature.starts_with("harness") {
+            failure.signature.push_str("@alt");
+            failure.message = format!("[library configuration: no std, lexical-core compact] {}", failure.message);
+        }
         if failure.signature.starts_with("harness") {
             // a defect of the machinery (generator produced something its own
             // reference cannot read, two references disagree): exit 2
@@ -485,6 +504,8 @@ impl Engine {
         if self.replay_only || self.failed() || self.filtered_out(name) {
             return;
         }
+        // second library configuration: a third of the budget, except where numbers are read or written
+        let cases = if ALT_CONFIG && !matches!(self.property, "C07" | "C08" | "C09" | "C17") { (cases / 3).max(1) } else { cases };
         self.any_campaign.store(true, Ordering::Relaxed);
         self.all_exhaustive.store(false, Ordering::Relaxed);
         let t0 = Instant::now();
@@ -695,9 +716,9 @@ impl Engine {
         if self.replay_only || self.failed() || self.filtered_out(name) {
             return;
         }
-        if cfg!(debug_assertions) {
-            // the fuzz targets are built once (by cargo-fuzz, with debug assertions on);
-            // the campaign is driven from the release run only
+        if cfg!(debug_assertions) || ALT_CONFIG {
+            // the fuzz targets are built once (by cargo-fuzz, default library configuration, with
+            // debug assertions on); the campaign is driven from the default release run only
             return;
         }
         self.any_campaign.store(true, Ordering::Relaxed);
@@ -875,6 +896,7 @@ impl Engine {
                 "notes": &*self.notes.lock().unwrap(),
                 "known_findings_hit": &*self.known_hits.lock().unwrap(),
                 "profile": if cfg!(debug_assertions) { "checked (debug assertions + overflow checks)" } else { "release" },
+                "library_configuration": library_configuration(),
             },
             "assumptions": meta.assumptions,
             "wall_s": wall,
